@@ -325,8 +325,19 @@ def make_eval(facts, ctx):
     def c_tim(ev, node, args):
         return MapObj(ctx, "tim", node.get("ccls", ""), args, node.get("l"))
 
-    return SymEval([facts], call_hooks=[(r"^FEAT::assertion$", hook_assert)],
-                   construct_hooks=[(r"Intern::SubIndexMapping<", c_sim), (r"Intern::TargetIndexMapping<", c_tim)])
+    ev = SymEval([facts], call_hooks=[(r"^FEAT::assertion$", hook_assert)],
+                 construct_hooks=[(r"Intern::SubIndexMapping<", c_sim), (r"Intern::TargetIndexMapping<", c_tim)])
+
+    def save():
+        return (list(ctx.writes), dict(ctx.sims), dict(ctx.rows), dict(ctx.vtx))
+
+    def restore(d):
+        ctx.writes[:] = d[0]
+        ctx.sims.clear(); ctx.sims.update(d[1])
+        ctx.rows.clear(); ctx.rows.update(d[2])
+        ctx.vtx.clear(); ctx.vtx.update(d[3])
+    ev.state_hooks.append((save, restore))
+    return ev
 
 
 class Template:
@@ -617,6 +628,8 @@ def decompose(T, tm, value, line):
             return slot, "%s used for children of a %d-face of %s" % (sim.cls.rsplit("::", 1)[-1], origin, sname(tm.shape))
         if parent[0] != "face" or sims[0][0][2] != parent[2]:
             return slot, "orientation of local face %d used for a child of local face %s (%s)" % (sims[0][0][2], parent[2:] and parent[2], value)
+        if not (len(sim.args) == 3 and isinstance(sim.args[0], IdxRow) and isinstance(sim.args[1], IdxRow) and isinstance(sim.args[2], IdxSet)):
+            raise Unsupported("SubIndexMapping at line %s is constructed from %r (not index-set rows / an index set)" % (sim.line, sim.args))
         ok = (len(sim.args) == 3 and isinstance(sim.args[0], IdxRow) and isinstance(sim.args[1], IdxRow) and isinstance(sim.args[2], IdxSet)
               and (sim.args[0].iset.tag, sim.args[0].iset.cd, sim.args[0].iset.fd) == ("in", sd, 0)
               and (sim.args[1].iset.tag, sim.args[1].iset.cd, sim.args[1].iset.fd) == ("in", sd, origin)
@@ -641,13 +654,15 @@ def analyse_template(T, ck, tm):
     tm.slots = {}
     prob = []
     if len(tm.loops) != 1:
-        prob.append("%d loops over coarse entities" % len(tm.loops))
-    else:
-        b = tm.loops[0]["bound"]
-        if b != Lin.atom(("num", "in", sd)):
-            prob.append("the loop runs to %s, not over the coarse %d-entities" % (b, sd))
+        raise Unsupported("%d loops with different ranges (expected loops over the coarse %d-entities only)" % (len(tm.loops), sd))
+    b = tm.loops[0]["bound"]
+    if b != Lin.atom(("num", "in", sd)):
+        if b.c == 0 and len(b.t) == 1 and list(b.t)[0][0] == "num" and list(b.t.values()) == [1]:
+            prob.append("the loop runs over the coarse %d-entities, not over the coarse %d-entities" % (list(b.t)[0][2], sd))
+        else:
+            raise Unsupported("loop bound %s is not an entity count" % b)
     if any(not w[4] for w in tm.ctx.writes):
-        prob.append("index tuples written outside the loop over the coarse entities")
+        raise Unsupported("index tuples written outside the loop over the coarse entities")
     c = None
     rows = {}
     if not prob:
@@ -665,6 +680,8 @@ def analyse_template(T, ck, tm):
                 break
             rows.setdefault((rest.c, j), []).append((val, line))
     want = T.rc.get((tm.shape, tm.cd))
+    if not tm.ctx.writes and want:
+        raise Unsupported("no write to the output index set was recognised")
     if not prob:
         if c != want:
             prob.append("%s fine entities per coarse entity are written, StandardRefinementTraits<%s,%d>::count = %s" % (c, sname(tm.shape), tm.cd, want))
@@ -678,13 +695,12 @@ def analyse_template(T, ck, tm):
     bad = []
     for k in range(c):
         for j in range(nidx):
-            n = len(rows.get((k, j), []))
-            if n != 1:
-                bad.append("child %d index %d assigned %d times" % (k, j, n))
+            if not rows.get((k, j)):
+                bad.append("child %d index %d is never assigned" % (k, j))
     for (k, j) in rows:
         if not (0 <= k < c and 0 <= j < nidx):
             bad.append("write to child %d index %d outside %dx%d (line %s)" % (k, j, c, nidx, rows[(k, j)][0][1]))
-    ck.ob("E10.slot-once", name, not bad, "; ".join(bad[:6]) or "%d x %d slots each assigned once" % (c, nidx), fn.file, fn.line)
+    ck.ob("E10.slot-once", name, not bad, "; ".join(bad[:6]) or "%d x %d slots assigned" % (c, nidx), fn.file, fn.line)
     complete = not bad
     for (k, j), ws in sorted(rows.items()):
         val, line = ws[-1]
@@ -1335,28 +1351,36 @@ def check_targets(T, ck, facts, numbering):
             ck.ob("E10.target-form", name, not prob, "; ".join(prob) or "nothing to create", f.file, f.line)
             continue
         if len(tt.loops) != 1 or tt.loops[0]["bound"] != Lin.atom(("tnum", dim)):
-            prob.append("not a single loop over the part's %d-entities" % dim)
+            ck.incomplete("E10.target-form", "%s: loops %s are not loops over the part's %d-entities only" % (name, [repr(l["bound"]) for l in tt.loops], dim))
+            continue
         else:
             i_atom = tt.loops[0]["atom"]
             for row, j, val, line, inloop, tag in tt.ctx.writes:
                 rest = row - Lin.atom(("offset",)) - Lin.atom(i_atom) * c
-                if not rest.is_const() or not inloop:
+                if not inloop:
+                    raise_inc = "%s: target written outside the loop (line %s)" % (name, line)
+                    ck.incomplete("E10.target-form", raise_inc)
+                    prob.append(None)
+                    continue
+                if not rest.is_const():
                     prob.append("output row %s (line %s) is not offset + %d*i + k" % (row, line, c))
                     continue
                 slots.setdefault(rest.c, []).append((rt.lin(val), line))
             for k in range(c):
-                if len(slots.get(k, [])) != 1:
-                    prob.append("child %d assigned %d times" % (k, len(slots.get(k, []))))
+                if not slots.get(k):
+                    prob.append("child %d is never assigned" % k)
             for k in slots:
                 if not (0 <= k < c):
                     prob.append("child %d does not exist" % k)
+        if None in prob:
+            continue
         ck.ob("E10.target-form", name, not prob, "; ".join(prob) or "out[offset + %d*i + k], k<%d" % (c, c), f.file, f.line)
         if prob:
             continue
         tt.children = {}
         usable = True
         for k in range(c):
-            v, line = slots[k][0]
+            v, line = slots[k][-1]
             pr = None
             offs = [a for a in v.t if a[0] == "off"]
             tg = [a for a in v.t if a[0] == "tgt"]
@@ -1376,6 +1400,10 @@ def check_targets(T, ck, facts, numbering):
             elif tims:
                 tim = tt.ctx.sims[tims[0][1]]
                 ta2 = targs(tim.cls)
+                if not (tim.kind == "tim" and len(tim.args) == 3 and isinstance(tim.args[0], IdxRow) and isinstance(tim.args[1], IdxRow) and isinstance(tim.args[2], TgtSet)):
+                    ck.incomplete("E10.target-form", "%s child %d: TargetIndexMapping at line %s constructed from %r" % (name, k, tim.line, tim.args))
+                    usable = False
+                    continue
                 okargs = (tim.kind == "tim" and shape_of(ta2[0]) == sh and len(tim.args) == 3 and isinstance(tim.args[0], IdxRow) and isinstance(tim.args[1], IdxRow)
                           and isinstance(tim.args[2], TgtSet) and tim.args[2].d == 0
                           and (tim.args[0].iset.tag, tim.args[0].iset.cd, tim.args[0].iset.fd) == ("trg", dim, 0)
@@ -1600,13 +1628,14 @@ def declare_rules(ck):
             "(coarse counts, not already refined ones), offsets[p] = fine f-entities created by coarse entities of dimension < p (any mesh with >0 entities breaks otherwise)", min_instances=36)
     ck.rule("E10.template-form", "StandardIndexRefiner<Shape,cd,fd>::refine is one loop over the coarse Shape entities writing out[offset + c*i + k], "
             "c = StandardRefinementTraits<Shape,cd>::count, and returns c*num (any mesh with a cell of that shape breaks otherwise)", min_instances=20)
-    ck.rule("E10.slot-once", "every index out[offset+c*i+k][j], k<c, j<number of fd-faces of a cd-cell, is assigned exactly once, nothing else is written", min_instances=20)
+    ck.rule("E10.slot-once", "every index out[offset+c*i+k][j], k<c, j<number of fd-faces of a cd-cell, is assigned (the last straight-line assignment counts) and no row/index outside "
+            "that range is written (a write to row k>=c lands in the children of the next coarse entity)", min_instances=20)
     ck.rule("E10.slot-origin", "every written value is index_offsets[p] + m*(coarse p-entity) + child with p the dimension of that entity, m the number of fine fd-entities "
             "a coarse p-entity creates, child<m either constant or SubIndexMapping(vertices, p-faces of cell i, vertices-at-p-face).map(same local face, .)", min_instances=670)
     ck.rule("E10.face-tables", "FaceIndexMapping tables: rows are distinct faces with distinct vertices, row counts = FaceTraits; edges-at-face rows agree with "
             "vertices-at-face and vertices-at-edge (3D)", min_instances=8 + 36)
     ck.rule("E10.sampler-code", "CongruencySampler<S>::compare (every path of its decision tree) returns code o exactly when src[k]==trg[CongruencyMapping<S,0>(o,k)], "
-            "for every symmetry of the shape (an entity numbered by that symmetry relative to its parent's view gets wrong children otherwise)", min_instances=62)
+            "for every symmetry of the shape (an entity numbered by that symmetry relative to its parent's view gets wrong children otherwise)", min_instances=80)
     ck.rule("E10.orient-perm", "rows of CongruencyMapping<S,0> the sampler can return are symmetries (permutations) of the shape", min_instances=18)
     ck.rule("E10.edge-map", "CongruencyMapping<S,1> row o is the edge permutation induced by the vertex row o through FaceIndexMapping<S,1,0>", min_instances=50)
     ck.rule("E10.incidence", "reference cell, every orientation of its faces/edges: the fine entity named by faces_at_cell[c][j] has exactly the vertices of local face j "
@@ -1625,6 +1654,10 @@ def declare_rules(ck):
     ck.rule("E10.target-numbering", "whole TargetRefineWrapper<Shape> run: target rows follow the part's own fine numbering, target values the parent's fine numbering (both = numbering of E10.numbering)", min_instances=28)
     ck.rule("E10.simple-target", "parts without topology (SimpleTargetRefineWrapper run): the fine cd-entities of part entity i are stored at the part's own fine numbering and mapped bijectively "
             "onto the children of parent entity target[i] in the parent's fine numbering", min_instances=36)
+    ck.rule("E10.flip-induced", "CongruencyMapping<S,1>::flip permutes the edges-at-face tuple by the edge permutation that CongruencyMapping<S,0>::flip induces through FaceIndexMapping<S,1,0> "
+            "(FacetFlipper applies both to every negatively oriented boundary facet: otherwise edges-at-face of such facets are inconsistent, e.g. a single tetrahedron after deduct_topology_from_top)", min_instances=2)
+    ck.rule("E10.flip-reverses", "CongruencyMapping<S,0>::flip is a reflection (orientation reversing symmetry) of the shape, so a flipped boundary facet becomes positively oriented", min_instances=4)
+    ck.rule("E10.orientation-sign", "CongruencySampler<S>::orientation(code) is +1 exactly for the codes whose vertex row is a proper motion of the shape, -1 for reflections, 0 for the invalid code", min_instances=22)
     ck.rule("E10.callsite-roles", "call sites in StandardRefinery / TargetSetRefineParentWrapper: index/vertex refinement gets the coarse counts (never the array refined by EntityCountWrapper::query) "
             "and the sets of the same coarse mesh; target refinement gets the parent's counts and topology as target and the part's topology/target sets as source (a swap compiles: same types)", min_instances=72)
     ck.rule("E10.child-orientation", "on the reference cell (new vertices = means) every fine cell of the vertices-at-cell template has the orientation sign of the coarse cell "
@@ -1633,6 +1666,121 @@ def declare_rules(ck):
     if ck.tier == "thorough":
         ck.rule("E10.build-same", "the anchored functions instantiated by the repository's own refinement tests are (structurally) the functions analysed in the driver TU", min_instances=5)
     ck.rule("E10.no-orphan", "every fine entity of lower dimension created in the closure of the coarse cell is referenced by some fine cell", min_instances=83)
+
+
+# =================================================================================================
+# boundary facet re-orientation: CongruencyMapping::flip, CongruencySampler::orientation
+# =================================================================================================
+
+def ref_coords(T, facts, sh):
+    full = "FEAT::Shape::ReferenceCell<FEAT::Shape::%s>::vertex<int>" % sname(sh)
+    fn = find_full(facts, full)
+    if fn is None:
+        raise Unsupported("%s not instantiated" % full)
+    ev = SymEval([facts])
+    return {v: [Fraction(rt.lin(ev.run(fn, [Lin(v), Lin(c)])).as_int()) for c in range(sh[1])] for v in range(T.ft[(sh, 0)])}
+
+
+def perm_sign(sh, X, p):
+    """orientation sign of the vertex permutation p of the reference cell: +1 proper, -1 mirrored"""
+    D = sh[1]
+    def sv(q):
+        step = (lambda j: j + 1) if sh[0] == "S" else (lambda j: 1 << j)
+        return det([[X[q[step(j)]][c] - X[q[0]][c] for c in range(D)] for j in range(D)])
+    a, b = sv(list(p)), sv(list(range(len(p))))
+    if a == 0 or b == 0:
+        raise Unsupported("degenerate reference cell")
+    return 1 if (a > 0) == (b > 0) else -1
+
+
+def flip_perm(facts, fn, n):
+    """flip(idx) as a permutation q: idx'[k] = idx[q[k]]"""
+    def h_swap(ev, node, env, f):
+        a = ev.eval(node["a"][0], env, f, want_lvalue=True)
+        b = ev.eval(node["a"][1], env, f, want_lvalue=True)
+        if not (hasattr(a, "set") and hasattr(b, "set")):
+            raise Unsupported("std::swap of non-lvalues (line %s)" % node.get("l"))
+        va, vb = a.get(), b.get()
+        a.set(vb, ev, node)
+        b.set(va, ev, node)
+        return None
+    arr = rt.Arr([Lin.atom(("x", k)) for k in range(n)])
+    ev = SymEval([facts], call_hooks=[(r"^std::swap$", h_swap), (r"^FEAT::assertion$", hook_assert)])
+    ev.run(fn, [arr])
+    q = []
+    for k in range(n):
+        v = rt.lin(arr[k])
+        if v.c != 0 or len(v.t) != 1 or list(v.t.values()) != [1] or list(v.t)[0][0] != "x":
+            raise Unsupported("%s: element %d becomes %s" % (fn.full, k, v))
+        q.append(list(v.t)[0][1])
+    if sorted(q) != list(range(n)):
+        raise Unsupported("%s does not permute its argument: %s" % (fn.full, q))
+    return tuple(q)
+
+
+def check_flips(T, ck, facts):
+    for sh in [("H", 1), ("S", 1), ("H", 2), ("S", 2)]:
+        nv = T.ft[(sh, 0)]
+        try:
+            X = ref_coords(T, facts, sh)
+        except Unsupported as e:
+            ck.incomplete("E10.flip-reverses", "%s: %s" % (sname(sh), e))
+            continue
+        # orientation(code) against the geometric sign of the vertex row
+        of = [f for f in facts.functions if f.tk != "pattern" and f.qn == "FEAT::Geometry::Intern::CongruencySampler<FEAT::Shape::%s>::orientation" % sname(sh)]
+        rows = T.cm.get((sh, 0))
+        if len(of) == 1 and rows is not None:
+            for code, r in enumerate(rows):
+                if tuple(r) not in set(T.syms[sh]):
+                    continue        # unused row
+                try:
+                    got = rt.lin(SymEval([facts]).run(of[0], [Lin(code)])).as_int()
+                    want = perm_sign(sh, X, r)
+                except Unsupported as e:
+                    ck.incomplete("E10.orientation-sign", "%s code %d: %s" % (sname(sh), code, e))
+                    continue
+                ck.ob("E10.orientation-sign", "CongruencySampler<%s>::orientation(%d)" % (sname(sh), code), got == want,
+                      "returns %d; vertex row %s of this code is a %s of the shape" % (got, r, "proper motion" if want > 0 else "reflection"), of[0].file, of[0].line)
+            try:
+                got = rt.lin(SymEval([facts]).run(of[0], [Lin(-1)])).as_int()
+                ck.ob("E10.orientation-sign", "CongruencySampler<%s>::orientation(-1)" % sname(sh), got == 0, "returns %d for the invalid code" % got, of[0].file, of[0].line)
+            except Unsupported as e:
+                ck.incomplete("E10.orientation-sign", "%s code -1: %s" % (sname(sh), e))
+        else:
+            ck.incomplete("E10.orientation-sign", "CongruencySampler<%s>::orientation / CongruencyMapping<.,0> not available" % sname(sh))
+        # flip of the vertex tuple: a reflection of the shape
+        f0 = [f for f in facts.functions if f.tk != "pattern" and f.name == "flip" and f.cls == "FEAT::Geometry::Intern::CongruencyMapping<FEAT::Shape::%s, 0>" % sname(sh)]
+        if not f0:
+            ck.incomplete("E10.flip-reverses", "CongruencyMapping<%s,0>::flip not instantiated" % sname(sh))
+            continue
+        try:
+            pi = flip_perm(facts, f0[0], nv)
+            sg = perm_sign(sh, X, pi)
+        except Unsupported as e:
+            ck.incomplete("E10.flip-reverses", str(e))
+            continue
+        ck.ob("E10.flip-reverses", "CongruencyMapping<%s,0>::flip" % sname(sh), pi in set(T.syms[sh]) and sg == -1,
+              "vertex tuple becomes (v[%s]): %s" % ("], v[".join(map(str, pi)), "a reflection of the shape" if (pi in set(T.syms[sh]) and sg == -1) else
+                                                    ("not a symmetry of the shape" if pi not in set(T.syms[sh]) else "orientation preserving")), f0[0].file, f0[0].line)
+        if sh[1] < 2:
+            continue
+        f1 = [f for f in facts.functions if f.tk != "pattern" and f.name == "flip" and f.cls == "FEAT::Geometry::Intern::CongruencyMapping<FEAT::Shape::%s, 1>" % sname(sh)]
+        if not f1:
+            ck.incomplete("E10.flip-induced", "CongruencyMapping<%s,1>::flip not instantiated" % sname(sh))
+            continue
+        fim = T.fim[(sh, 1, 0)]
+        try:
+            sg1 = flip_perm(facts, f1[0], len(fim))
+        except Unsupported as e:
+            ck.incomplete("E10.flip-induced", str(e))
+            continue
+        eid = {frozenset(r): e for e, r in enumerate(fim)}
+        want = tuple(eid.get(frozenset(pi[v] for v in r)) for r in fim)
+        bad = [j for j in range(len(fim)) if want[j] != sg1[j]]
+        ck.ob("E10.flip-induced", "CongruencyMapping<%s,1>::flip" % sname(sh), not bad,
+              "edge tuple becomes (e[%s]); after the vertex flip (v[%s]) local edge j has the vertices of old edge (%s)%s" % (
+                  "], e[".join(map(str, sg1)), "], v[".join(map(str, pi)), ",".join(map(str, want)),
+                  "" if not bad else ": edges-at-face entries %s of every flipped boundary facet name the wrong edge" % bad), f1[0].file, f1[0].line)
 
 
 # =================================================================================================
@@ -1693,11 +1841,36 @@ def array_sources(fns, is_array):
     return out
 
 
+def resolve_alias(n, inits, depth=0):
+    """follow local pointer/reference aliases of an array argument down to the member / array it names"""
+    while n is not None and depth < 8:
+        depth += 1
+        if n.get("k") == "Cast" or (n.get("k") == "Un" and n.get("op") in ("&", "*")):
+            n = n["e"]
+        elif n.get("k") == "Ref" and n.get("dk") == "local" and n["d"] in inits:
+            n = inits[n["d"]]
+        elif n.get("k") == "Index" and n.get("idx", {}).get("k") == "Int" and n["idx"].get("v") == "0":
+            n = n["b"]          # &a[0]
+        else:
+            break
+    return n
+
+
 def check_callsites(ck, facts):
-    """E1: the wrappers receive the part's / parent's / coarse mesh's data in the documented parameter slots"""
+    """E1: the wrappers receive the part's / parent's / coarse mesh's data in the documented parameter slots.
+    Only positively identified wrong origins are violations; anything whose origin cannot be traced is incomplete."""
+    R = "E10.callsite-roles"
+
     def arg_by_name(call, name):
         pn = call.get("pn", [])
         return call["a"][pn.index(name)] if name in pn and pn.index(name) < len(call.get("a", [])) else None
+
+    def counts_of(srcs):
+        """sources of an entity-count array -> (root, unknown?)"""
+        if not srcs or any(s[0] is None or s[0][1] != ("get_num_entities",) for s in srcs):
+            return None
+        roots = {s[0][0] for s in srcs}
+        return list(roots)[0] if len(roots) == 1 else ("mixed", tuple(sorted(map(repr, roots))))
 
     for f in facts.functions:
         if f.tk == "pattern" or f.body is None:
@@ -1711,95 +1884,120 @@ def check_callsites(ck, facts):
                 simple = "SimpleTargetRefineWrapper" in c["callee"]
                 ptype = short(f.param_type("parent") or "?").replace("const ", "").replace(" &", "")
                 key = "%s/parent=%s/%s" % (short(f.cls), ptype, "simple" if simple else "standard")
-                num = arg_by_name(c, "num_entities_trg")
+                num = resolve_alias(arg_by_name(c, "num_entities_trg"), inits)
                 tin = provenance(arg_by_name(c, "target_set_holder_in"), f, inits)
                 tout = provenance(arg_by_name(c, "target_set_holder_out"), f, inits)
-                prob = []
-                srcs = array_sources([f], lambda b: b.get("k") == "Ref" and num is not None and b.get("d") == num.get("d")) if num is not None and num.get("k") == "Ref" else []
-                roots = {s[0][0] if s[0] else None for s in srcs}
-                if not srcs or len(roots) != 1 or None in roots or any(s[0][1] != ("get_num_entities",) for s in srcs):
-                    prob.append("num_entities_trg is not filled from one object's get_num_entities(): %s" % [s[0] for s in srcs])
-                parent = list(roots)[0] if len(roots) == 1 else None
+                srcs = array_sources([f], lambda b: b.get("k") == "Ref" and b.get("d") == num.get("d")) if num is not None and num.get("k") == "Ref" else []
+                parent = counts_of(srcs)
+                trg = src = None
                 if not simple:
                     trg = provenance(arg_by_name(c, "index_set_holder_trg"), f, inits)
                     src = provenance(arg_by_name(c, "index_set_holder_src"), f, inits)
-                    if trg is None or trg[0] != parent or trg[1] != ("get_topology",):
-                        prob.append("index_set_holder_trg is %s, expected the topology of the object whose entity counts are passed (%s)" % (trg, parent))
-                    if src is None or src[0] == parent:
-                        prob.append("index_set_holder_src is derived from the parent object (%s)" % (src,))
-                    if src is not None and tin is not None and src[0] == tin[0]:
-                        prob.append("index_set_holder_src and target_set_holder_in are the same object")
-                if tin is None or tin[0] == parent or tout is None or tout[0] == parent or (tin and tout and tin[0] == tout[0]):
-                    prob.append("target_set_holder_in/out are %s / %s" % (tin, tout))
-                ck.ob("E10.callsite-roles", key, not prob, "; ".join(prob) or "counts and topology of %s as target, part's sets %s as source" % (parent, tin), f.file, c.get("l"))
+                unknown = [w for w, v in (("num_entities_trg", parent), ("target_set_holder_in", tin), ("target_set_holder_out", tout)) if v is None]
+                if not simple:
+                    unknown += [w for w, v in (("index_set_holder_trg", trg), ("index_set_holder_src", src)) if v is None]
+                    if trg is not None and parent is not None and trg[0] == parent and trg[1] not in (("get_topology",), ("get_index_set_holder",)):
+                        unknown.append("index_set_holder_trg via %s" % (trg[1],))
+                if unknown or (parent and parent[0] == "mixed"):
+                    ck.incomplete(R, "%s: origin of %s not traceable" % (key, unknown or parent))
+                    continue
+                prob = []
+                if not simple:
+                    if trg[0] != parent:
+                        prob.append("index_set_holder_trg is the topology of %s, but the entity counts passed as num_entities_trg are those of %s" % (trg[0], parent))
+                    if src[0] == parent:
+                        prob.append("index_set_holder_src is derived from the parent object %s" % (parent,))
+                if tin[0] == parent:
+                    prob.append("target_set_holder_in is derived from the parent object %s" % (parent,))
+                if tout[0] == parent or tout[0] == tin[0]:
+                    prob.append("target_set_holder_out is %s" % (tout,))
+                ck.ob(R, key, not prob, "; ".join(prob) or "counts and topology of %s as target, part's sets %s as source" % (parent, tin), f.file, c.get("l"))
         # (B) the refinery of a mesh part hands the part's target sets/topology and the parent over
         if f.name == "fill_target_sets" and re.match(r"^FEAT::Geometry::StandardRefinery<FEAT::Geometry::MeshPart<", f.cls):
             for c in f.calls(callee_re=r"TargetSetRefineParentWrapper<.*>::fill_target_sets$"):
                 a = {nm: provenance(arg_by_name(c, nm), f, inits) for nm in ("target_set_holder", "coarse_target_set_holder", "coarse_ish", "parent")}
+                key = "%s/parent=%s" % (short(f.cls)[:120], a["parent"][0][1] if a["parent"] else "?")
+                if any(v is None for v in a.values()) or a["coarse_target_set_holder"][1] != ("get_target_set_holder",) or a["coarse_ish"][1] != ("get_topology",) or a["parent"][1] != ():
+                    ck.incomplete(R, "%s: origins %s not traceable" % (key, a))
+                    continue
                 prob = []
-                if not (a["coarse_target_set_holder"] and a["coarse_ish"] and a["coarse_target_set_holder"][0] == a["coarse_ish"][0] and a["coarse_target_set_holder"][0][0] == "member"
-                        and a["coarse_target_set_holder"][1] == ("get_target_set_holder",) and a["coarse_ish"][1] == ("get_topology",)):
-                    prob.append("coarse target sets / coarse topology are %s / %s, expected get_target_set_holder() / get_topology() of the same member" % (a["coarse_target_set_holder"], a["coarse_ish"]))
-                if not (a["parent"] and a["parent"][0][0] == "member" and a["parent"][1] == () and a["coarse_ish"] and a["parent"][0] != a["coarse_ish"][0]):
-                    prob.append("parent argument is %s" % (a["parent"],))
-                if not (a["target_set_holder"] and a["target_set_holder"][0][0] == "param"):
-                    prob.append("output target set holder is %s" % (a["target_set_holder"],))
-                ck.ob("E10.callsite-roles", "%s/parent=%s" % (short(f.cls)[:120], a["parent"][0][1] if a["parent"] else "?"), not prob,
-                      "; ".join(prob) or "part %s, parent %s" % (a["coarse_ish"][0], a["parent"][0]), f.file, c.get("l"))
+                if a["coarse_target_set_holder"][0] != a["coarse_ish"][0]:
+                    prob.append("coarse target sets are those of %s but the coarse topology that of %s" % (a["coarse_target_set_holder"][0], a["coarse_ish"][0]))
+                if a["parent"][0] in (a["coarse_ish"][0], a["coarse_target_set_holder"][0]):
+                    prob.append("the parent argument is the coarse mesh part %s itself" % (a["parent"][0],))
+                if a["target_set_holder"][0] in (a["parent"][0], a["coarse_ish"][0]):
+                    prob.append("the output target set holder is %s" % (a["target_set_holder"][0],))
+                ck.ob(R, key, not prob, "; ".join(prob) or "part %s, parent %s" % (a["coarse_ish"][0], a["parent"][0]), f.file, c.get("l"))
         # (C) index / vertex refinement: coarse counts (not the refined ones) and the coarse mesh's sets
         if re.match(r"^FEAT::Geometry::StandardRefinery<", f.cls) and f.name in ("fill_index_sets", "fill_vertex_set"):
             cls_fns = [g for g in facts.functions if g.cls == f.cls and g.tk != "pattern" and g.body is not None]
             for c in f.calls(callee_re=r"Intern::(IndexRefineWrapper|StandardVertexRefineWrapper)<.*>::refine$"):
+                key = "%s::%s" % (short(f.cls)[:120], f.name)
                 prob = []
                 hin = provenance(arg_by_name(c, "index_set_holder_in"), f, inits)
                 if hin is None or hin[0][0] != "member" or hin[1] not in (("get_index_set_holder",), ("get_topology",)):
-                    prob.append("index_set_holder_in is %s" % (hin,))
-                num = arg_by_name(c, "num_entities")
-                if num is not None:
-                    if not (num.get("k") == "Member" and num.get("b", {}).get("k") == "This"):
-                        prob.append("num_entities is not a member array")
-                    else:
-                        nm = num["n"]
-                        srcs = array_sources(cls_fns, lambda b: b.get("k") == "Member" and b.get("n") == nm)
-                        roots = {s[0][0] if s[0] else None for s in srcs}
-                        if not srcs or None in roots or any(s[0][1] != ("get_num_entities",) for s in srcs) or len(roots) != 1:
-                            prob.append("%s is not filled from get_num_entities() of one mesh: %s" % (nm, [s[0] for s in srcs]))
-                        refined = [q for g in cls_fns for q in g.calls(callee_re=r"Intern::EntityCountWrapper<.*>::query$")
-                                   if q["a"] and q["a"][0].get("k") == "Member" and q["a"][0].get("n") == nm]
-                        if refined:
-                            prob.append("%s is also passed to EntityCountWrapper::query (it holds the fine counts)" % nm)
-                        # the counted mesh is the one stored in the member whose index sets are refined
-                        ctor_inits = {}
-                        for g in cls_fns:
-                            for ini in g.d.get("inits", []) or []:
-                                if "member" in ini:
-                                    pv = provenance(ini["init"], g, {})
-                                    if pv:
-                                        ctor_inits.setdefault(ini["member"], set()).add(pv[0])
-                        if hin is not None and len(roots) == 1 and None not in roots and not (list(roots)[0] in ctor_inits.get(hin[0][1], set())):
-                            prob.append("%s counts %s but the refined index sets are those of member %s (initialised from %s)" % (nm, list(roots)[0], hin[0][1], ctor_inits.get(hin[0][1])))
+                    ck.incomplete(R, "%s: origin of index_set_holder_in (%s) not traceable" % (key, hin))
+                    continue
+                num = resolve_alias(arg_by_name(c, "num_entities"), inits)
+                if arg_by_name(c, "num_entities") is not None:
+                    if not (num is not None and num.get("k") == "Member" and num.get("b", {}).get("k") == "This"):
+                        ck.incomplete(R, "%s: num_entities is not a member array" % key)
+                        continue
+                    nm = num["n"]
+                    srcs = array_sources(cls_fns, lambda b: b.get("k") == "Member" and b.get("n") == nm)
+                    root = counts_of(srcs)
+                    ctor_inits = {}
+                    for g in cls_fns:
+                        for ini in g.d.get("inits", []) or []:
+                            if "member" in ini:
+                                pv = provenance(ini["init"], g, {})
+                                if pv:
+                                    ctor_inits.setdefault(ini["member"], set()).add(pv[0])
+                    if root is None or root[0] == "mixed" or hin[0][1] not in ctor_inits:
+                        ck.incomplete(R, "%s: origin of the counts in %s (%s) or of member %s not traceable" % (key, nm, [s[0] for s in srcs], hin[0][1]))
+                        continue
+                    refined = [q for g in cls_fns for q in g.calls(callee_re=r"Intern::EntityCountWrapper<.*>::query$")
+                               if q["a"] and (resolve_alias(q["a"][0], local_inits(g)) or {}).get("k") == "Member" and resolve_alias(q["a"][0], local_inits(g)).get("n") == nm]
+                    if refined:
+                        prob.append("%s is also passed to EntityCountWrapper::query (it holds the fine counts)" % nm)
+                    if root not in ctor_inits[hin[0][1]]:
+                        prob.append("%s counts %s but the refined index sets are those of member %s (initialised from %s)" % (nm, root, hin[0][1], sorted(ctor_inits[hin[0][1]])))
                 vin = arg_by_name(c, "vertex_set_in")
                 if vin is not None:
                     pv = provenance(vin, f, inits)
-                    if pv is None or hin is None or pv[0] != hin[0] or pv[1] != ("get_vertex_set",):
-                        prob.append("vertex_set_in is %s, index sets from %s" % (pv, hin))
-                ck.ob("E10.callsite-roles", "%s::%s" % (short(f.cls)[:120], f.name), not prob, "; ".join(prob) or "coarse data of member %s" % (hin[0][1],), f.file, c.get("l"))
+                    if pv is None or pv[1] != ("get_vertex_set",):
+                        ck.incomplete(R, "%s: origin of vertex_set_in (%s) not traceable" % (key, pv))
+                        continue
+                    if pv[0] != hin[0]:
+                        prob.append("vertex_set_in is the vertex set of %s, the index sets those of %s" % (pv[0], hin[0]))
+                ck.ob(R, key, not prob, "; ".join(prob) or "coarse data of member %s" % (hin[0][1],), f.file, c.get("l"))
         # (D) the fine counts are computed from an array initialised with the coarse counts
         if re.match(r"^FEAT::Geometry::StandardRefinery<", f.cls) and f.d.get("ctor"):
             for c in f.calls(callee_re=r"Intern::EntityCountWrapper<.*>::query$"):
-                arr = c["a"][0] if c.get("a") else None
-                prob = []
+                key = "%s::ctor(%s)/query" % (short(f.cls)[:120], ",".join(p["n"] for p in f.params))
+                arr = resolve_alias(c["a"][0], inits) if c.get("a") else None
                 if not (arr is not None and arr.get("k") == "Member"):
-                    prob.append("argument of query is not a member array")
-                else:
-                    srcs = array_sources([f], lambda b: b.get("k") == "Member" and b.get("n") == arr["n"])
-                    roots = {s[0][0] if s[0] else None for s in srcs}
-                    if not srcs or None in roots or len(roots) != 1 or any(s[0][1] != ("get_num_entities",) for s in srcs) or list(roots)[0][0] != "param":
-                        prob.append("%s is not initialised from the coarse mesh's get_num_entities(): %s" % (arr["n"], [s[0] for s in srcs]))
-                    elif not all(f.cfg and f.cfg.block_of(c["i"]) and True for _ in [0]):
-                        pass
-                ck.ob("E10.callsite-roles", "%s::ctor(%s)/query" % (short(f.cls)[:120], ",".join(p["n"] for p in f.params)), not prob,
-                      "; ".join(prob) or "fine counts computed from the coarse counts of %s" % (list(roots)[0],), f.file, c.get("l"))
+                    ck.incomplete(R, "%s: argument of query is not a member array" % key)
+                    continue
+                srcs = array_sources([f], lambda b: b.get("k") == "Member" and b.get("n") == arr["n"])
+                root = counts_of(srcs)
+                if root is None or root[0] == "mixed":
+                    ck.incomplete(R, "%s: origin of the counts in %s not traceable (%s)" % (key, arr["n"], [s[0] for s in srcs]))
+                    continue
+                # the member whose index sets fill_index_sets refines, and the constructor argument it is initialised from
+                coarse = None
+                for g in facts.functions:
+                    if g.cls == f.cls and g.name == "fill_index_sets" and g.tk != "pattern" and g.body is not None:
+                        for q in g.calls(callee_re=r"Intern::IndexRefineWrapper<.*>::refine$"):
+                            hv = provenance(arg_by_name(q, "index_set_holder_in"), g, local_inits(g))
+                            if hv is not None and hv[0][0] == "member":
+                                coarse = hv[0][1]
+                mine = {pv[0] for ini in (f.d.get("inits", []) or []) if ini.get("member") == coarse for pv in [provenance(ini["init"], f, {})] if pv}
+                if coarse is None or not mine:
+                    ck.incomplete(R, "%s: the member holding the coarse mesh is not identifiable" % key)
+                    continue
+                ok = root in mine
+                ck.ob(R, key, ok, "fine counts computed from the counts of %s; the refined index sets are those of member %s, initialised from %s" % (root, coarse, sorted(mine)), f.file, c.get("l"))
 
 
 class Prefixed:
@@ -1818,7 +2016,7 @@ class Prefixed:
         return self._ck.note(self._prefix + s)
 
 
-def analyse(ck, facts):
+def analyse(ck, facts, second_pass=False):
     """all rules on one fact base; -> list of covered templates"""
     for e in facts.diags:
         ck.incomplete("E0", "front-end error in the driver: %s:%s %s" % (rel(e["file"]), e["line"], e["msg"]))
@@ -1866,7 +2064,9 @@ def analyse(ck, facts):
     check_targets(T, ck, facts, numbering)
     check_simple_targets(T, ck, facts, numbering)
     check_child_geometry(T, ck, facts)
-    check_callsites(ck, facts)
+    if not second_pass:
+        check_callsites(ck, facts)
+        check_flips(T, ck, facts)
     # assertions met while evaluating the glue classes on concrete local indices (visible in DEBUG parses)
     seen = set()
     for cls, m in sorted(T.models.items()):
@@ -1916,7 +2116,7 @@ def run(tier):
         # (a) the same analysis on the DEBUG configuration (ASSERTs of the table functions become visible)
         dfacts = featlib.extract("tu/c10_refine.cpp", files=FILES, debug=True)
         ck.tu(dfacts)
-        analyse(Prefixed(ck, "DEBUG/"), dfacts)
+        analyse(Prefixed(ck, "DEBUG/"), dfacts, second_pass=True)
         # (b) the instantiations compiled by the repository's own tests are the functions analysed above
         mine = {f.full: f for f in facts.functions if f.tk != "pattern"}
         for tu in ["standard_refinery-test-conf-quad.cpp", "standard_refinery-test-conf-hexa.cpp", "standard_refinery-test-conf-tria.cpp",
@@ -1935,13 +2135,13 @@ def run(tier):
                 g = mine.get(f.full)
                 if g is None:
                     if re.search(r"Intern::(StandardIndexRefiner|StandardTargetRefiner|SimpleTargetRefiner|CongruencyMapping|FaceIndexMapping)<", f.qn):
-                        ck.ob("E10.build-same", "%s/%s" % (tu, f.full), False, "compiled by the test but not instantiated by the driver: not analysed", f.file, f.line)
+                        ck.incomplete("E10.build-same", "%s: %s is compiled by the test but not instantiated by the driver (not analysed)" % (tu, f.full))
                     continue
                 ok = json.dumps(body_digest(f.body), sort_keys=True) == json.dumps(body_digest(g.body), sort_keys=True)
                 same += ok
                 diff += not ok
                 if not ok:
-                    ck.ob("E10.build-same", "%s/%s" % (tu, f.full), False, "resolved body differs from the one analysed in the driver TU", f.file, f.line)
+                    ck.incomplete("E10.build-same", "%s: resolved body of %s differs from the one analysed in the driver TU" % (tu, f.full))
             ck.ob("E10.build-same", tu, same > 0 and diff == 0, "%d anchored functions compiled by this test are identical to the analysed ones" % same, path, None)
     return ck.finish("E10: symbolic extraction of the refinement templates and tables, complete case analysis on the reference cells of %s for every orientation of their faces/edges" %
                      ", ".join(sname(s) for s in SHAPES), extra=extra)
